@@ -303,10 +303,10 @@ theorem C02_chain_order (ph : Phys) (p1 p2 p3 : Nat) (d1 d2 d3 : SecDesc) (s1 s2
 /-- The trailer chain of ANY number of revisions: starting at `start` (what `find_xref` returned),
 every revision being a plain section (classic table or cross-reference stream, `/Prev` → older one)
 or a hybrid pair (table with `/XRefStm` and `/Prev`; its stream carries neither), at pairwise different
-positions, `read_xref_from` returns the sections newest first — the table of a hybrid revision
+positions — the oldest one possibly with a circular `/Prev` pointing at itself — `read_xref_from` returns the sections newest first — the table of a hybrid revision
 directly before its stream — and has visited exactly their positions.  Generalises `C02_chain_order`. -/
 theorem C02_chain (ph : Phys) (start : Nat) (ps : List Nat) (L : List (Section × Trailer))
-    (h : Chain ph (some start) ps L) (hnd : ps.Nodup) (fuel : Nat) (hf : ps.length ≤ fuel) :
+    (h : Chain ph (some start) ps L) (hnd : ps.Nodup) (fuel : Nat) (hf : ps.length < fuel) :
     readXrefFrom ph fuel start ([], []) = .ok (L, ps.reverse) := by
   have := follow_chain h fuel [] [] hf (by intro p _ hm; cases hm) hnd
   simpa [follow] using this
@@ -319,18 +319,18 @@ def exChainPh : Phys :=
         (200, .stream 2 none [1, 1, 1] [] ⟨some 100, some 150, some 1, none⟩),
         (300, .stream 2 none [1, 1, 1] [] ⟨some 200, none, some 1, none⟩)], []⟩
 
-example : (readXrefFrom exChainPh 4 300 ([], [])).map (fun r => (r.1.map (·.2.prev), r.2)) =
+example : (readXrefFrom exChainPh 5 300 ([], [])).map (fun r => (r.1.map (·.2.prev), r.2)) =
     .ok ([some 200, some 100, none, none], [100, 150, 200, 300]) := by
   have hc : Chain exChainPh (some 300) [300, 200, 150, 100] _ :=
     Chain.plain (p := 300) rfl rfl rfl
       (Chain.hybrid (p := 200) (x := 150) rfl rfl rfl rfl rfl rfl rfl
         (Chain.plain (p := 100) rfl rfl rfl Chain.done))
-  rw [C02_chain exChainPh 300 _ _ hc (by decide) 4 (by decide)]
+  rw [C02_chain exChainPh 300 _ _ hc (by decide) 5 (by decide)]
   rfl
 
 /-- The same with the executable hypothesis the harness evaluates per file (`q.chain`). -/
 theorem C02_chain_checked (ph : Phys) (start fuel' fuel : Nat) (ps : List Nat) (L : List (Section × Trailer))
-    (h : chainOf ph fuel' (some start) = some (ps, L)) (hn : nodupNat ps = true) (hf : ps.length ≤ fuel) :
+    (h : chainOf ph fuel' (some start) = some (ps, L)) (hn : nodupNat ps = true) (hf : ps.length < fuel) :
     readXrefFrom ph fuel start ([], []) = .ok (L, ps.reverse) :=
   C02_chain ph start ps L (chainOf_sound ph fuel' _ _ _ h) (nodupNat_sound ps hn) fuel hf
 
@@ -595,7 +595,7 @@ theorem C02_end_to_end (b : Nat) (hb : 1 ≤ b) (pre : Bytes) (e0 : UInt8) (he0 
     (ts : TailStyle) (eol : LineEol) (w start : Nat) (hw : 0 < w) (hst : start < 10 ^ w)
     (secs : List (Nat × SecDesc)) (f : WFile) (ps : List Nat) (L : List (Section × Trailer))
     (hchain : Chain ⟨pre ++ e0 :: renderTail ts eol w start, secs, f.store⟩ (some start) ps L)
-    (hnd : ps.Nodup) (hfuel : ps.length ≤ secs.length + 2)
+    (hnd : ps.Nodup) (hfuel : ps.length < secs.length + 2)
     (hs : SecsList (L.map (·.1)).reverse f.ents) (hok : f.ok = true) (n : Nat) :
     (openPhys ⟨pre ++ e0 :: renderTail ts eol w start, secs, f.store⟩ b).map
       (fun d => getobj f.store (d.map (·.1)) n) = .ok (specGetobj f.history n) := by
